@@ -201,8 +201,12 @@ struct LzhDrain : Family {
 		for (auto& op : plan.ops) if (op.verb == "getbuf" || (op.verb == "getdata" && op.u("n", 1) > 0)) pattern.push_back(op);
 		if (pattern.empty()) { Line l = mkline("op", "getdata"); l.set("n", 4096); pattern.push_back(l); }
 		ctx.setOp(plan.ops.empty() ? 0 : plan.ops.size() - 1);
+		Line bulk = mkline("op", "getdata");
 		for (size_t i = 0; !threw && !exhausted; ++i) {
-			step(pattern[i % pattern.size()]);
+			// the plan's own pattern for the first 3000 continuation steps; a long output is then drained in growing pieces so that a
+			// megabyte stream read byte by byte does not take minutes (the drain-schedule clause is decided by the steps before)
+			if (i >= 3000) { bulk.set("n", 512 + (i - 3000) % 7919); step(bulk); }
+			else step(pattern[i % pattern.size()]);
 			checkPrefix("during the drain");
 			if (got.size() > limit || calls > 4000000) ctx.fail("C04.terminates", "drain does not come to an end");
 		}
